@@ -147,6 +147,11 @@ func (in *inst) expr(e ast.Expr) ast.Expr {
 				in.used = true
 				return rtSel(x.Sel.Name)
 			}
+		case "net":
+			if x.Sel.Name == "Listen" {
+				in.used = true
+				return rtSel("Listen")
+			}
 		case "context":
 			if ctxFns[x.Sel.Name] {
 				in.used = true
